@@ -90,7 +90,7 @@ def no_strong_across_select(run, lc):
     if not run.require(len(ys) == 1 and b.layout is not None, "O7.1", "select-suspension-point", "cannot identify the select! suspension point (yields=%s)" % ys, "found"):
         return
     y = ys[0]
-    yspan = b.blocks[y].term["span"]
+    yspan = b.blocks[y].term.get("layout_span", b.blocks[y].term["span"])
     variants = [v for v in b.layout["variants"] if v["span"] == yspan]
     if not run.require(len(variants) == 1, "O7.1", "select-layout-variant", "no coroutine-layout variant for the select! suspension point", "layout variant found"):
         return
